@@ -1,9 +1,11 @@
 #!/bin/bash
-# runs every stored seeded change against its property's quick check; prints one line per seed
+# runs every stored seeded change against the quick check that is recorded as catching it
+# (meta.json "check", default: the property's own); prints one line per seed
 cd /verif
-for d in seeded/*/; do
+for d in ${SEEDS:-seeded/*/}; do
   n=$(basename $d); id=${n%%-*}
-  out=$(SKIPTESTS=1 tools/seedtest.sh $id /verif/$d/patch.diff 2>&1)
+  chk=$(python3 -c "import json,sys; print(json.load(open('/verif/seeded/$n/meta.json')).get('check','$id'))" 2>/dev/null || echo $id)
+  out=$(SKIPTESTS=1 tools/seedtest.sh $chk /verif/seeded/$n/patch.diff 2>&1)
   v=$(echo "$out" | grep -c '^VIOLATION'); rc=$(echo "$out" | grep '^exit=' | tail -1)
-  echo "$n violations=$v $rc"
+  echo "$n check=$chk violations=$v $rc"
 done
